@@ -56,6 +56,7 @@ def check(ctx, replay=None):
     s = json.loads(out.strip().splitlines()[-1])
     ctx.cov["evaluations"] = s["runs"]
     ctx.cov["listings_of_150_to_400_functions"] = s.get("listings_of_150_to_400_functions")
+    ctx.cov["listings_with_functions_of_100_to_5000_lines"] = s.get("listings_with_functions_of_100_to_5000_lines")
     ctx.cov["distinct_nontrivial"] = s["distinct_nontrivial"]
     ctx.cov["traces_validated_against_impl"] = s["cases"]
     ctx.cov["cases_with_model_drift"] = s["drift"]
